@@ -21,7 +21,8 @@ RULE = ("crash cases = (pre-state, completed first operation or none, crashing o
         "create(e,{a:1}) on the file / its extension sibling / the version folder; crash points = every prefix of the "
         "recorded effect log, every append cut at every byte boundary. corruption cases = every pre-state sidecar x {cut at "
         "each byte 0..n-1, directory, PermissionError, EIO, invalid UTF-8}. distinct = distinct crash states / corruptions; "
-        "non-trivial = the crash state differs from both the pre- and the post-state tree, or any corruption.")
+        "non-trivial = the crash state differs from both the pre- and the post-state tree, or any corruption."
+        " Added: every (pre-state, operation) once more with the process's temporary directory on the tree's file system; files renamed in from outside the tree, refused renames and sendfile are part of the effect log.")
 ASSUMPTIONS = ["crash model = process death: issued effects persist in order (no power-loss reordering)",
                "a sidecar holding valid JSON that is not a mapping is outside the statement ('not valid JSON')",
                "interception completeness is checked per history: effect log replayed on the pre-state must equal the real tree"]
